@@ -1057,6 +1057,32 @@ func laneArith(op token.Token, a, b Int, rt types.Type) (Val, bool) {
 			}
 		}
 		return mk(out), true
+	case token.AND:
+		// word & constant mask, byte by byte: a zero mask byte erases the lane
+		word, mask := a, b
+		if a.IsConst() && !b.IsConst() {
+			word, mask = b, a
+		}
+		if !mask.IsConst() {
+			return nil, false
+		}
+		lw, ok := lanesOf(word, n)
+		if !ok {
+			return nil, false
+		}
+		out := make([]string, n)
+		for i := range out {
+			mb := (uint64(mask.Lo) >> (8 * uint(i))) & 0xff
+			switch {
+			case mb == 0 || lw[i] == "0":
+				out[i] = "0"
+			case mb == 0xff:
+				out[i] = lw[i]
+			default:
+				out[i] = fmt.Sprintf("(%s&%d)", lw[i], mb)
+			}
+		}
+		return mk(out), true
 	case token.OR, token.XOR:
 		la, ok1 := lanesOf(a, n)
 		lb, ok2 := lanesOf(b, n)
